@@ -184,6 +184,19 @@ def run(ctx):
     ctx.log("M1: %s" % ", ".join("%d distinct" % r.distinct for r in m1))
     hists = gen_hists(ctx, 40 if quick else 300, 10, ctx.seed * 100 + 1) + gen_hists(ctx, 20 if quick else 200, 16, ctx.seed * 100 + 2)
     ctx.rng.shuffle(hists)
+    # a third of the workloads should seal two memtables without waiting for the flush in between
+    # (two flush tasks in flight, WAL segments of both still needed)
+    def double_seal(h):
+        ops = [x["op"] for x in h]
+        for i, o in enumerate(ops):
+            if o == "Rotate":
+                rest = ops[i + 1:]
+                if "Rotate" in rest and "Write" in rest[:rest.index("Rotate")] and "FlushWait" not in rest[:rest.index("Rotate")]:
+                    return True
+        return False
+    ds = [h for h in hists if double_seal(h)]
+    other = [h for h in hists if not double_seal(h)]
+    hists = [x for pair in zip(other, ds + other) for x in pair][: len(hists)] if ds else hists
     opts = option_sets(pid)
     nwl = 6 if quick else 40
     wls = []
